@@ -395,6 +395,9 @@ func (sc SCTPData) SerializeTo(b gopacket.SerializeBuffer, opts gopacket.Seriali
 	if err != nil {
 		return err
 	}
+	for i := len(payload) + 16; i < len(bytes); i++ {
+		bytes[i] = 0 // chunk padding: the prepended bytes are not zeroed
+	}
 	bytes[0] = uint8(sc.Type)
 	flags := uint8(0)
 	if sc.Unordered {
@@ -479,6 +482,9 @@ func (sc SCTPInit) SerializeTo(b gopacket.SerializeBuffer, opts gopacket.Seriali
 	if err != nil {
 		return err
 	}
+	for i := length; i < len(bytes); i++ {
+		bytes[i] = 0 // chunk padding: the prepended bytes are not zeroed
+	}
 	bytes[0] = uint8(sc.Type)
 	bytes[1] = sc.Flags
 	binary.BigEndian.PutUint16(bytes[2:4], uint16(length))
@@ -560,6 +566,9 @@ func (sc SCTPSack) SerializeTo(b gopacket.SerializeBuffer, opts gopacket.Seriali
 	if err != nil {
 		return err
 	}
+	for i := length; i < len(bytes); i++ {
+		bytes[i] = 0 // chunk padding: the prepended bytes are not zeroed
+	}
 	bytes[0] = uint8(sc.Type)
 	bytes[1] = sc.Flags
 	binary.BigEndian.PutUint16(bytes[2:4], uint16(length))
@@ -629,6 +638,9 @@ func (sc SCTPHeartbeat) SerializeTo(b gopacket.SerializeBuffer, opts gopacket.Se
 	if err != nil {
 		return err
 	}
+	for i := length; i < len(bytes); i++ {
+		bytes[i] = 0 // chunk padding: the prepended bytes are not zeroed
+	}
 	bytes[0] = uint8(sc.Type)
 	bytes[1] = sc.Flags
 	binary.BigEndian.PutUint16(bytes[2:4], uint16(length))
@@ -687,6 +699,9 @@ func (sc SCTPError) SerializeTo(b gopacket.SerializeBuffer, opts gopacket.Serial
 	bytes, err := b.PrependBytes(roundUpToNearest4(length))
 	if err != nil {
 		return err
+	}
+	for i := length; i < len(bytes); i++ {
+		bytes[i] = 0 // chunk padding: the prepended bytes are not zeroed
 	}
 	bytes[0] = uint8(sc.Type)
 	bytes[1] = sc.Flags
@@ -793,6 +808,9 @@ func (sc SCTPCookieEcho) SerializeTo(b gopacket.SerializeBuffer, opts gopacket.S
 	bytes, err := b.PrependBytes(roundUpToNearest4(length))
 	if err != nil {
 		return err
+	}
+	for i := length; i < len(bytes); i++ {
+		bytes[i] = 0 // chunk padding: the prepended bytes are not zeroed
 	}
 	bytes[0] = uint8(sc.Type)
 	bytes[1] = sc.Flags
